@@ -17,7 +17,7 @@ const (
 	c14S1 = "SELECT name FROM items WHERE id = 1"
 )
 
-var c14OpNames = []string{"exec-q1", "exec-q2", "tx-exec-q1", "tx-row-s1", "row-s1", "query-s1", "reset", "session-exec-q1", "tx-exec-q2-rollback", "tx-session-exec-rollback", "begin-exec-q1-rollback"}
+var c14OpNames = []string{"exec-q1", "exec-q2", "tx-exec-q1", "tx-row-s1", "row-s1", "query-s1", "reset", "session-exec-q1", "tx-exec-q2-rollback", "tx-session-exec-rollback", "begin-exec-q1-rollback", "tx-query-s1"}
 
 // c14Op runs one operation and reports (error, rows/affected ok)
 func c14Op(db *gorm.DB, op string) error {
@@ -66,6 +66,11 @@ func c14Op(db *gorm.DB, op string) error {
 			var name string
 			return tx.Raw(c14S1).Row().Scan(&name)
 		})
+	case "tx-query-s1":
+		return db.Transaction(func(tx *gorm.DB) error {
+			var names []string
+			return tx.Raw(c14S1).Scan(&names).Error
+		})
 	case "row-s1":
 		var name string
 		return db.Raw(c14S1).Row().Scan(&name)
@@ -98,7 +103,7 @@ func c14Clean(err error) bool {
 
 // three-operation sequences that also run in the quick tier: a text cached by a direct
 // call, used inside a transaction (where the fault may hit), then used directly again
-var c14QuickTriples = [][]int{{0, 2, 0}, {0, 2, 7}, {1, 8, 1}, {5, 3, 5}, {4, 3, 4}, {0, 10, 0}, {7, 9, 0}, {0, 6, 0}}
+var c14QuickTriples = [][]int{{0, 2, 0}, {0, 2, 7}, {1, 8, 1}, {5, 3, 5}, {4, 3, 4}, {0, 10, 0}, {7, 9, 0}, {0, 6, 0}, {5, 11, 5}, {11, 5, 5}}
 
 func c14SeqShapes(tier int) [][]int {
 	var r [][]int
